@@ -46,7 +46,7 @@ impl<KT: DbMapKeyType> FileDbXxxInner<KT> {
             key_file,
             val_file,
             htx_file,
-            dirty: false,
+            dirty: true,
             _phantom: std::marker::PhantomData,
         })
     }
@@ -243,6 +243,7 @@ impl<KT: DbMapKeyType> DbXxxObjectSafe<KT> for FileDbXxxInner<KT> {
     }
     #[inline]
     fn put_kt(&mut self, key_kt: &KT, value: &[u8]) -> Result<()> {
+        self.dirty = true;
         let hash = HashValue::new(key_kt.hash_value());
         let opt = self.find_in_hash_buckets_kt(hash, key_kt)?;
         if let Some((key_offset, _prev_key_offset)) = opt {
@@ -266,6 +267,7 @@ impl<KT: DbMapKeyType> DbXxxObjectSafe<KT> for FileDbXxxInner<KT> {
     }
     #[inline]
     fn del_kt(&mut self, key_kt: &KT) -> Result<Option<Vec<u8>>> {
+        self.dirty = true;
         let hash = HashValue::new(key_kt.hash_value());
         let opt = self.find_in_hash_buckets_kt(hash, key_kt)?;
         if let Some((key_offset, _prev_key_offset)) = opt {
